@@ -30,6 +30,7 @@ import (
 	"go.uber.org/zap/internal/bufferpool"
 	"go.uber.org/zap/internal/exit"
 	"go.uber.org/zap/internal/pool"
+	"go.uber.org/zap/internal/verifhook"
 )
 
 var _cePool = pool.New(func() *CheckedEntry {
@@ -271,6 +272,7 @@ func (ce *CheckedEntry) Write(fields ...Field) {
 	if hook != nil {
 		hook.OnWrite(ce, fields)
 	}
+	verifhook.Point("ce.write.before_put")
 	putCheckedEntry(ce)
 }
 
